@@ -62,11 +62,17 @@ func Harness_C15_history() {
 
 	ref := make([]hRef, N)
 	src := &hSource{}
+	// what feed f meant for trip n: 0 present but ignored (unassigned update of an assigned trip), 1 absent, 2 applied
+	eff := make([][]int, F)
+	times := make([]time.Time, F)
 	for f := 0; f < F; f++ {
 		tf := vr.Unix(vr.I64(vr.T("feed", f, ".time")), time.UTC)
+		times[f] = tf
+		eff[f] = make([]int, N)
 		feed := &gtfs.Realtime{CreatedAt: tf}
 		for n := 0; n < N; n++ {
 			r := &ref[n]
+			eff[f][n] = 1
 			if !vr.Bool(vr.T("feed", f, ".trip", n, ".present")) {
 				if r.active && r.markedPast == nil {
 					t := tf
@@ -101,8 +107,10 @@ func Harness_C15_history() {
 			r.exists = true
 			r.active = true
 			if r.assigned && !hasVeh {
+				eff[f][n] = 0
 				continue
 			}
+			eff[f][n] = 2
 			r.assigned = r.assigned || hasVeh
 			r.tripID, r.routeID, r.vehID, r.dir = id, trip.ID.RouteID, vid, trip.ID.DirectionID
 			r.nUpd++
@@ -150,6 +158,36 @@ func Harness_C15_history() {
 			vr.Assert("C15.counters", vr.Implies(g.TripUID == uid, counters))
 			vr.Assert("C15.marked_past", vr.Implies(g.TripUID == uid, past))
 			vr.Assert("C15.stops_marked", vr.Implies(g.TripUID == uid, stops))
+			// when a stop entry was marked: at the first feed after its last observation that either lacks the
+			// trip or carries an applied update (which, being later than the last observation, no longer reports it)
+			distinct := true
+			for a := 0; a < F; a++ {
+				for b := a + 1; b < F; b++ {
+					distinct = vr.And(distinct, times[a].Unix() != times[b].Unix())
+				}
+			}
+			for k := range g.StopTimes {
+				st := &g.StopTimes[k]
+				for i := 0; i < F; i++ {
+					if eff[i][n] != 2 {
+						continue
+					}
+					next := -1
+					for k2 := i + 1; k2 < F && next < 0; k2++ {
+						if eff[k2][n] != 0 {
+							next = k2
+						}
+					}
+					seenAt := vr.And(distinct, g.TripUID == uid, st.LastObserved.Unix() == times[i].Unix())
+					if next < 0 {
+						vr.Assert("C15.stop_marked_when", vr.Implies(seenAt, st.MarkedPast == nil))
+					} else if st.MarkedPast == nil {
+						vr.Assert("C15.stop_marked_when", !seenAt)
+					} else {
+						vr.Assert("C15.stop_marked_when", vr.Implies(seenAt, st.MarkedPast.Unix() == times[next].Unix()))
+					}
+				}
+			}
 		}
 		vr.Assert("C15.membership", vr.Or(any...))
 	}
